@@ -7,7 +7,7 @@ package main
 //   (int-write n)                -> (text reread)                 reread  = Read of the text written
 //   (bool-read bytes) / (bool-write b)                            same shapes
 //   (ts-read   bytes)            -> (ok sec nsec prec rewrite) | err
-//   (ts-write  sec nsec prec)    -> (text reread)
+//   (ts-write  sec nsec prec [zone-offset-seconds]) -> (text reread)
 //   (float-read bytes)           -> ok | err                      float values are never reported
 //   (float-write neg digits dp)  -> (text T|F)                    v = 0.digits * 10^dp (shortest digits); T: Read(Write(v)) == v
 //   (float-canon bytes)          -> T | F | err                   Write(Read(s)) == s
@@ -130,7 +130,11 @@ func runTypes(in Sx) Sx {
 	case "ts-write":
 		sec, ns, p := AtomInt64(l[1]), AtomInt64(l[2]), AtomInt(l[3])
 		return Guard(func() Sx {
-			f := quickfix.FIXUTCTimestamp{Time: time.Unix(sec, ns), Precision: quickfix.TimestampPrecision(p)}
+			tm := time.Unix(sec, ns)
+			if len(l) > 4 { // the same instant carried in a fixed-offset zone: the written text must not depend on it
+				tm = tm.In(time.FixedZone("z", AtomInt(l[4])))
+			}
+			f := quickfix.FIXUTCTimestamp{Time: tm, Precision: quickfix.TimestampPrecision(p)}
 			w := f.Write()
 			var r quickfix.FIXUTCTimestamp
 			if err := r.Read(w); err != nil {
@@ -427,7 +431,13 @@ func (g *gen) timestamps() {
 		rd(s)
 	}
 	// writes: boundary instants and random instants at each precision (and an undefined precision)
-	wr := func(sec, ns int64, p int) { run(L(Sym("ts-write"), Int64(sec), Int64(ns), Int(p))) }
+	wr := func(sec, ns int64, p int) {
+		run(L(Sym("ts-write"), Int64(sec), Int64(ns), Int(p)))
+		if g.intn(3) == 0 { // the instant held in a non-UTC location
+			off := []int{19800, -28800, 3600, -3600, 50400, -43200, 1, -1, 12345}[g.intn(9)]
+			run(L(Sym("ts-write"), Int64(sec), Int64(ns), Int(p), Int(off)))
+		}
+	}
 	for _, sec := range []int64{0, -1, 1, 86399, 86400, -86400, -86401, 951782400, 951868799, 951868800, 1078012800, 4107542400,
 		-62167219200, -62167219201, 253402300799, 253402300800, -62135596800, -2208988800, 1136214245, 68169600 + 31535999, -30610224000} {
 		for p := 0; p < 4; p++ {
